@@ -52,7 +52,7 @@ func planFor(prop, tier string) plan {
 		}
 		return ops
 	}
-	p := plan{Configs: base, Seeds: []string{"init", "empty", "overlap", "gap"}}
+	p := plan{Configs: base, Seeds: []string{"init", "empty", "overlap", "gap", "ontick"}}
 	quick := tier != "thorough"
 	switch prop {
 	case "C07", "C01":
@@ -65,6 +65,14 @@ func planFor(prop, tier string) plan {
 		}
 		if quick {
 			p.Depth, p.SeedDep = 3, 2
+			if prop == "C01" {
+				// the exit-in-every-order probe costs ~100 messages per state: two configurations, narrower alphabet
+				p.Configs = p.Configs[:2]
+				p.Configs[1].SpreadFactor = "0.0005"
+				p.Alpha.SwapIn = []int64{999, 400000, 30000000}
+				p.Alpha.SwapOut = []int64{250000}
+				p.Alpha.Creates = p.Alpha.Creates[:5]
+			}
 		} else {
 			p.Depth, p.SeedDep = 4, 3
 			p.Configs = append(p.Configs, more...)
@@ -73,10 +81,10 @@ func planFor(prop, tier string) plan {
 	case "C08":
 		p.Alpha = Alphabet{Creates: creates(!quick), Adds: [][2]int64{{1000, 1000}}, Withdraws: [][2]int64{{1, 3}, {1, 1}},
 			SwapIn: []int64{999, 400000, 30000000}, SwapOut: []int64{250000}, Claims: true, Transfer: true, Incentive: true, Ticks: []int{0, 1, 2}}
-		p.Seeds = []string{"init", "twins", "gap", "overlap"}
+		p.Seeds = []string{"init", "twins", "gap", "overlap", "ontick"}
 		if quick {
 			p.Depth, p.SeedDep = 3, 2
-			p.Configs = p.Configs[:2]
+			p.Configs = []Config{p.Configs[0], {TickSpacing: 1, SpreadFactor: "0.002", Scaled: false, First0: 1000000, First1: 5000000000, RangeUnit: 50}}
 		} else {
 			p.Depth, p.SeedDep = 4, 3
 			p.Configs = append(p.Configs, more...)
@@ -124,12 +132,18 @@ func seedOps(name string, cfg Config) []Op {
 	case "overlap":
 		return []Op{first, {K: "create", A: "B", R: 1, X: cfg.First0, Y: cfg.First1}, {K: "create", A: "B", R: 4, X: cfg.First0, Y: cfg.First1},
 			{K: "swapin", D: 0, X: cfg.First0 / 3}, {K: "tick", D: 0}, {K: "swapin", D: 1, X: cfg.First1 / 2}}
+	case "ontick":
+		// deep liquidity, then a fee-paying swap so small that the price stays inside the initial tick: the next
+		// position created with a boundary exactly on the current tick meets non-zero accumulated growth
+		// (and an incentive whose remainder is almost used up by an emission that has been persisted)
+		return []Op{{K: "create", A: "A", R: 0, X: 1000 * cfg.First0, Y: 1000 * cfg.First1}, {K: "incentive", X: 3700, Y: 1, D: 0},
+			{K: "tick", D: 2}, {K: "swapin", D: 1, X: cfg.First1 * 3}, {K: "tick", D: 1}}
 	case "twins":
 		// two identical positions born in the same block by different owners, a third with the same range
 		// and more liquidity, one never-in-range position, and one incentive per uptime
 		return []Op{first, {K: "create", A: "B", R: 0, X: cfg.First0, Y: cfg.First1}, {K: "create", A: "B", R: 0, X: 3 * cfg.First0, Y: 3 * cfg.First1},
 			{K: "create", A: "A", R: 2, X: cfg.First0, Y: 0},
-			{K: "incentive", X: 1000000, Y: 10, D: 0}, {K: "incentive", X: 7777, Y: 1, D: 1}, {K: "incentive", X: 500000, Y: 3, D: 2},
+			{K: "incentive", X: 1000000, Y: 10, D: 0}, {K: "incentive", X: 3700, Y: 1, D: 1}, {K: "incentive", X: 500000, Y: 3, D: 2},
 			{K: "swapin", D: 0, X: cfg.First0 / 50}, {K: "tick", D: 1}}
 	case "gap":
 		return []Op{first, {K: "create", A: "B", R: 2, X: cfg.First0, Y: 0}, {K: "create", A: "B", R: 3, X: 0, Y: cfg.First1},
